@@ -30,12 +30,34 @@ class Fwd(CustomSchema[FwdProps]):
         return self.__class__(self.props.update(inner=inner))
 
 
+class FwdKw(CustomSchema[FwdProps]):
+    """The same forwarder written the other common way: hooks that take only **kwargs and pass
+    them through untouched (no named indent / value / path parameters)."""
+
+    def __call__(self, inner: Any) -> "FwdKw":
+        return self.__class__(self.props.update(inner=inner))
+
+    def __represent__(self, visitor: Any, **kwargs: Any) -> str:
+        return self.props.inner.__accept__(visitor, **kwargs)
+
+    def __generate__(self, visitor: Any, **kwargs: Any) -> Any:
+        return self.props.inner.__accept__(visitor, **kwargs)
+
+    def __validate__(self, visitor: Any, **kwargs: Any) -> Any:
+        return self.props.inner.__accept__(visitor, **kwargs)
+
+    def __substitute__(self, visitor: Any, **kwargs: Any) -> Any:
+        inner = self.props.inner.__accept__(visitor, **kwargs)
+        return self.__class__(self.props.update(inner=inner))
+
+
 _registered = register_type("mc_fwd", Fwd)
+register_type("mc_fwdkw", FwdKw)
 
 
-def wrap(inner):
+def wrap(inner, flavour=None):
     from d42 import schema
-    return schema.mc_fwd(inner)
+    return schema.mc_fwdkw(inner) if flavour == "kw" else schema.mc_fwd(inner)
 
 
 # Two more user-defined types, declared the documented way with the *plain* Props class: they
